@@ -87,6 +87,9 @@ def classify(scn, line):
     if op == "srv.write":
         return "srv.write:%s-unexplained" % e.get("kind")
     if op == "log.append":
+        wills = {x["will"]["p"] for x in scn[:line - 1] if x["op"] == "cli.send" and x.get("kind") == "CONNECT" and x.get("haswill")}
+        if e.get("p") in wills:
+            return "log.append:will-unexplained"
         return "log.append:" + ("unprefixed-topic" if e.get("mount") == "" else "unexplained")
     if op == "reg.delete":
         return "session-ended-without-cause"
